@@ -117,6 +117,11 @@ func (cr *serverConnReader) runInner() error {
 func (cr *serverConnReader) handleTunneling(in io.ReadWriter) (io.ReadWriter, error) {
 	rr := &rewindablereader.Reader{R: in}
 
+	// the first bytes of a connection are read here, before readFuncStandard():
+	// apply the same deadline, otherwise a peer that sends less than 4 bytes
+	// (or an incomplete HTTP request) is never disconnected.
+	cr.sc.nconn.SetReadDeadline(time.Now().Add(cr.sc.s.IdleTimeout))
+
 	buf := make([]byte, 4)
 	_, err := io.ReadFull(rr, buf)
 	if err != nil {
